@@ -356,6 +356,7 @@ def run(scn, full_log=False):
     with _speedups.use(knobs.get("mask", "c")) as mask_eff, \
             SimEnv(scn.get("tapes"), max_iters=600_000, max_time=400.0,
                    window=knobs.get("window", 65536), full_log=full_log) as env:
+        from tornado.iostream import StreamClosedError
         from tornado.websocket import WebSocketClosedError
         net = env.net
         loop = env.loop
@@ -398,7 +399,7 @@ def run(scn, full_log=False):
                         await fut
                     else:
                         pending_writes.append(fut)
-                except WebSocketClosedError:
+                except (WebSocketClosedError, StreamClosedError):
                     state["writer_err"] = (who, i)
                     return
 
@@ -821,25 +822,35 @@ def run(scn, full_log=False):
                             f"valid.hang/{mode}/{phase}")
                 elif status in ("done", "hang", "time_cap"):
                     # Tornado ended the connection although only valid traffic was carried
-                    over = "+ctl_over_limit" if state.get("ctl_over_limit") else ""
-                    if miss_in:
+                    if state.get("ctl_over_limit"):
+                        # a control frame (<=125 bytes, legal) was longer than max_message_size, or
+                        # longer than what was left of it next to the fragments already buffered
+                        pend = (f"in message {len(got_in)} of {len(in_msgs)} pending" if miss_in else
+                                f"out message {len(got_out)} of {len(out_msgs)} pending" if miss_out
+                                else "all messages delivered")
+                        bad("valid.aborted", f"Tornado closed the connection (close frame: "
+                                             f"{state.get('tornado_close')}) although only valid traffic "
+                                             f"was carried; a control frame plus the buffered fragments "
+                                             f"exceeded max_message_size={mms}; {pend}",
+                            f"valid.aborted/{mode}/ctl_over_limit")
+                    elif miss_in:
                         i = len(got_in)
                         f = fstr(in_feats, i)
                         bad("in.aborted", f"message {i} of {len(in_msgs)} ({len(in_msgs[i][1])} bytes, "
-                                          f"type {in_msgs[i][0]}, features {f or '-'}{over}) never delivered: "
+                                          f"type {in_msgs[i][0]}, features {f or '-'}) never delivered: "
                                           f"Tornado closed the connection "
                                           f"(close frame from Tornado: {state.get('tornado_close')})",
-                            f"in.aborted/{mode}/{f}{over}")
+                            f"in.aborted/{mode}/{f}")
                     elif miss_out:
                         i = len(got_out)
                         f = fstr(out_feats, i)
                         bad("out.aborted", f"message {i} of {len(out_msgs)} never reached the peer: "
-                                           f"Tornado closed the connection ({f}{over})",
-                            f"out.aborted/{mode}/{f}{over}")
+                                           f"Tornado closed the connection ({f})",
+                            f"out.aborted/{mode}/{f}")
                     else:
                         bad("valid.aborted", f"all messages delivered but Tornado closed the connection "
-                                             f"before the peer did (phase {phase}{over})",
-                            f"valid.aborted/{mode}{over}")
+                                             f"before the peer did (phase {phase})",
+                            f"valid.aborted/{mode}")
             if state["writer_err"] is not None and not viol:
                 bad("valid.write_failed", f"write_message raised WebSocketClosedError "
                                           f"{state['writer_err']}", f"valid.write_failed/{mode}")
